@@ -573,7 +573,8 @@ def run_property(prop, tier, seed, only=None, shards=None):
         "violations": n_viol,
     }
     os.makedirs(os.path.join(OUT_DIR, "evidence"), exist_ok=True)
-    with open(os.path.join(OUT_DIR, "evidence", f"{prop}.json"), "w") as fh:
+    # a run restricted with --only (my own debugging) never replaces the evidence of a complete run
+    with open(os.path.join(OUT_DIR, "evidence", f"{prop}.json" if only is None else f"{prop}.partial.json"), "w") as fh:
         json.dump(evidence, fh, indent=1, sort_keys=False)
 
     if harness_errors:
